@@ -14,7 +14,7 @@ CHECKS = {
         engine="TXM",
         technique="deterministic simulation: seeded histories of begin/write/commit/abort/gc over the real TransactionManager, judged after every commit by a first-committer-wins reference model (spec clock independent of epochs and gc); delta-debugged replay",
         category="exploration",
-        text="Seeded search over manager-level histories (300k quick / 6M thorough) with the simulator owning the total order of all calls, gc at every point and long-running pinned transactions. Both directions are judged after every commit: a commit with an overlapping committed writer must be refused with WriteConflict; any other commit must be accepted, whatever gc did. Sampling, not proof.",
+        text="Seeded search over manager-level histories (300k quick / 2M thorough) with the simulator owning the total order of all calls, gc at every point and long-running pinned transactions. Both directions are judged after every commit: a commit with an overlapping committed writer must be refused with WriteConflict; any other commit must be accepted, whatever gc did. Sampling, not proof.",
         design_ref="DESIGN.md §3 C03",
         note="Trusted: the 10-line reference rule (RefTxm). Assumes writes are the ones registered through record_write. Multi-threaded commits are explored separately by the shuttle layer (C20 engine).",
     ),
@@ -127,7 +127,7 @@ CHECKS["C17"] = dict(
     engine="PAR+SPILL",
     technique="deterministic simulation of thread schedules: ParallelPipeline's own scoped worker threads are handed to shuttle through a cfg-guarded std::thread::scope seam; every parking_lot lock operation and every atomic of scheduler.rs/pipeline.rs is a scheduling point; output compared with a brute-force sequential evaluation. SPILL: the spilling sort and the spilling hash aggregate over generated tables with the spill files behind the file seam: memory budget, write-buffer size and an I/O fault plan (n-th file operation fails once / from then on, as generic error or disk full; EINTR once) are drawn per run; answer compared with the non-spilling operator and a brute-force model, spill directory and accounting checked afterwards",
     category="exploration",
-    text="Decides the schedule-, budget- and fault-dependent part: the spilling operators give the in-memory answer under every generated budget (threshold 1 row .. never) and buffer size, turn a hard I/O fault into an error (never a panic or a different answer), are transparent to EINTR, and leave no spill file and zero accounting behind (10.8k quick / 540k thorough runs). PAR: for generated tables around the morsel boundaries and seven operator chains, 1-4 workers and five chunk sizes, every explored schedule (8 quick / 24 thorough per scenario; random and PCT) of morsel hand-out, stealing and result collection yields the rows (or mergeable partials) of sequential evaluation, the right rows_processed and morsel count, and no deadlock/panic.",
+    text="Decides the schedule-, budget- and fault-dependent part: the spilling operators give the in-memory answer under every generated budget (threshold 1 row .. never) and buffer size, turn a hard I/O fault into an error (never a panic or a different answer), are transparent to EINTR, and leave no spill file and zero accounting behind (10.8k quick / 180k thorough runs). PAR: for generated tables around the morsel boundaries and seven operator chains, 1-4 workers and five chunk sizes, every explored schedule (8 quick / 24 thorough per scenario; random and PCT) of morsel hand-out, stealing and result collection yields the rows (or mergeable partials) of sequential evaluation, the right rows_processed and morsel count, and no deadlock/panic.",
     design_ref="DESIGN.md §3 C17",
     note="NOT decided: pull-vs-push equality, single-threaded chunk/morsel-size independence, merge.rs/fold.rs as functions of their inputs (pure); the async spill manager/files (tokio file I/O, no simulated runtime); spilling joins do not exist in this tree. crossbeam's deque runs real code but only in sequentially consistent interleavings at the granularity of the hooked points.",
 )
